@@ -37,10 +37,8 @@ def main():
             with open(args.path) as f:
                 rec = json.load(f)
             mod = importlib.import_module("checks." + rec["property"].lower())
-            if hasattr(mod, "replay"):
-                return mod.replay(rec)
-            print("no replay function for", rec["property"])
-            return 2
+            os.environ["VERIF_REPLAY_DIGEST"] = os.path.basename(args.path).split(".")[0]
+            return mod.run(rec.get("tier", "quick"))
     except common.Machinery as e:
         print("MACHINERY-ERROR:", e, file=sys.stderr)
         return common.EXIT_MACHINERY
